@@ -76,6 +76,9 @@ type proxy struct {
 }
 
 func (p *proxy) Do(_ context.Context, cmd rueidis.Completed) rueidis.RedisResult {
+	if cmd.IsEmpty() {
+		panic("redis: cannot queue an empty command; check the arguments of the call")
+	}
 	p.cmds = append(p.cmds, cmd)
 	return rueidis.NewErrorResult(errPipelineNotExecuted)
 }
